@@ -35,8 +35,8 @@ def matrix():
                 items += S.strm(fam, cont, 2, ("alloc",), p=1, i=1, dr=1, pa=1, sw=0, dev=3)
     for fam in ("fgroup", "sgroup"):
         i = 1 if fam == "sgroup" else None
-        items += S.grp(fam, ("std",), init=1, mm=2, ops=1, p=1, i=i, dr=1, pa=1, sw=0)
-        items += S.grp(fam, ("std",), keyed=1, init=2, mm=3, ops=2, p=1, i=i, dr=1, pa=1, sw=0, dev=3)
+        items += S.grp(fam, ("std",), init=1, mm=2, ops=1, p=1, i=i, dr=1, pa=1, sw=0, dev=3)
+        items += S.grp(fam, ("std",), keyed=1, init=2, mm=3, ops=2, p=1, i=i, dr=1, pa=1, sw=0, dev=2)
     for term in ("for_each", "try_for_each", "collect", "collect_result"):
         items += S.co(("std",), src="stream", l=2, i=2, p=1, term=term, stack="ml" if term != "collect_result" else "e", lm=1, wp=1, dr=1, pa=1, sw=0, dev=3)
         items += S.co(("std",), src="vec", l=2, term=term, stack="t" if term != "collect_result" else None, tn=1, wp=1, dr=1, pa=1, sw=0, dev=3)
